@@ -1109,4 +1109,158 @@ Section Proofs.
         auto; apply spec_xor_ok in X; rewrite update_nil by apply X; reflexivity.
   Qed.
 
+  (* ================= invariants, atomicity ================= *)
+  (* a returned container is coherent and well typed *)
+  Definition out_ok (r : res out) : Prop :=
+    match r with Ok (RNew n) => Inv n /\ TInv n | _ => True end.
+
+  Definition step_ok (d : dict) (rd : res out * dict) : Prop :=
+    Inv (snd rd) /\ TInv (snd rd) /\ out_ok (fst rd) /\
+    (forall e, fst rd = Err e -> snd rd = d).
+
+  Lemma ro_ok d r : Inv d -> TInv d -> out_ok r -> step_ok d (r, d).
+  Proof.
+    intros I T O. unfold step_ok. simpl.
+    split; [exact I|split; [exact T|split; [exact O|intros; reflexivity]]].
+  Qed.
+
+  Lemma new_ok (r : res dict) :
+    (forall n, r = Ok n -> Inv n /\ TInv n) -> out_ok (Spec.new r).
+  Proof. destruct r; simpl; auto. Qed.
+
+  Lemma mk_ok d r d' : Inv d' -> TInv d' -> out_ok r ->
+    (forall e, r = Err e -> d' = d) -> step_ok d (r, d').
+  Proof. intros. unfold step_ok. simpl. auto. Qed.
+
+  Lemma inplace_ok d (r : res dict) : Inv d -> TInv d ->
+    (forall n, r = Ok n -> Inv n /\ TInv n) -> step_ok d (inplace d r).
+  Proof.
+    intros I T H. destruct r as [n|e]; simpl.
+    - destruct (H n eq_refl). apply mk_ok; auto. exact Logic.I. intros; discriminate.
+    - now apply ro_ok.
+  Qed.
+
+  Lemma spec_cmp_ok enf d p f : out_ok (spec_cmp key keqb ieqb valid enf d p f).
+  Proof.
+    unfold spec_cmp. destruct p; simpl; try exact Logic.I;
+      destruct (fresh enf xs); simpl; exact Logic.I.
+  Qed.
+
+  Lemma spec_add_ok enf d x m : Inv d -> TInv d -> spec_add enf d x = Ok m -> Inv m /\ TInv m.
+  Proof.
+    intros I T H. apply (add_all_ok enf [x] d m I T). simpl. now rewrite H.
+  Qed.
+
+  Theorem spec_step_ok enf d o : Inv d -> TInv d -> step_ok d (spec_step enf d o).
+  Proof.
+    intros I T. destruct o; simpl.
+    - (* OAdd *) destruct (spec_add enf d x) as [m|e] eqn:A.
+      + destruct (spec_add_ok _ _ _ _ I T A). apply mk_ok; auto. exact Logic.I. intros; discriminate.
+      + now apply ro_ok.
+    - (* ODiscard *) destruct (member enf d a); [|now apply ro_ok].
+      apply mk_ok; [now apply inv_drop|now apply tinv_filter|exact Logic.I|intros; discriminate].
+    - (* ORemove *) destruct (member enf d a); [|now apply ro_ok].
+      apply mk_ok; [now apply inv_drop|now apply tinv_filter|exact Logic.I|intros; discriminate].
+    - (* OPop *) destruct d as [|[k y] d]; [now apply ro_ok|].
+      apply mk_ok; [eapply inv_tail; eauto| |exact Logic.I|intros; discriminate].
+      unfold TInv in *. simpl in T. apply andb_true_iff in T. tauto.
+    - (* OClear *) apply mk_ok; [apply inv_nil|reflexivity|exact Logic.I|intros; discriminate].
+    - now apply ro_ok.
+    - apply ro_ok; auto. destruct (lookup (denote a) d); exact Logic.I.
+    - now apply ro_ok.
+    - now apply ro_ok.
+    - now apply ro_ok.
+    - now apply ro_ok.
+    - now apply ro_ok.
+    - now apply ro_ok.
+    - now apply ro_ok.
+    - apply ro_ok; auto. apply spec_cmp_ok.
+    - apply ro_ok; auto. apply spec_cmp_ok.
+    - apply ro_ok; auto. apply spec_cmp_ok.
+    - apply ro_ok; auto. apply spec_cmp_ok.
+    - now apply ro_ok.
+    - apply ro_ok; auto. apply new_ok. intros n H. apply fresh_ok in H. tauto.
+    - apply ro_ok; auto. apply new_ok. intros n H. apply fresh_ok in H. tauto.
+    - apply ro_ok; auto. apply new_ok. intros n H. eapply spec_sub_ok; eauto.
+    - apply ro_ok; auto. apply new_ok. intros n H. eapply spec_xor_ok; eauto.
+    - apply ro_ok; auto. apply new_ok. intros n H. apply fresh_ok in H. tauto.
+    - apply ro_ok; auto. apply new_ok. intros n H. apply fresh_ok in H. tauto.
+    - apply ro_ok; auto. apply new_ok. intros n H. eapply spec_rsub_ok; eauto.
+    - apply ro_ok; auto. apply new_ok. intros n H. eapply spec_xor_ok; eauto.
+    - (* OIOr *) apply inplace_ok; auto. intros n H. eapply add_all_ok; eauto.
+    - (* OIAnd *) apply inplace_ok; auto. intros n H.
+      destruct (omap enf d p) as [[eb b]|]; [|discriminate]. inversion H; subst.
+      split; [now apply inv_filter|now apply tinv_filter].
+    - (* OISub *)
+      apply mk_ok; [now apply inv_filter|now apply tinv_filter|exact Logic.I|intros; discriminate].
+    - (* OIXor *) destruct p;
+        try (apply inplace_ok; auto; intros n H; eapply spec_xor_ok; eauto).
+      apply mk_ok; [apply inv_nil|reflexivity|exact Logic.I|intros; discriminate].
+  Qed.
+
+  (* ================= sequences of operations ================= *)
+  Notation run := (run key keqb ieqb valid as_key as_item key_of_key).
+  Notation spec_run := (spec_run key keqb ieqb valid key_of_key).
+
+  Theorem run_refines enf ops : forall d,
+    Inv d -> TInv d -> Forall wf_op ops ->
+    run enf d ops = spec_run enf d ops /\
+    Inv (snd (run enf d ops)) /\ TInv (snd (run enf d ops)) /\
+    Forall out_ok (fst (run enf d ops)).
+  Proof.
+    induction ops as [|o ops IH]; intros d I T W; simpl.
+    - split; [reflexivity|split; [exact I|split; [exact T|constructor]]].
+    - inversion W; subst. rewrite (step_refines enf d o I T H1).
+      pose proof (spec_step_ok enf d o I T) as G. unfold step_ok in G.
+      destruct (spec_step enf d o) as [r d1]. simpl in G. destruct G as (I1 & T1 & O1 & _).
+      destruct (IH d1 I1 T1 H2) as (E & I2 & T2 & O2). rewrite E.
+      destruct (spec_run enf d1 ops) as [rs d2]. simpl in *. rewrite E in I2, T2, O2.
+      split; [reflexivity|split; [exact I2|split; [exact T2|constructor; auto]]].
+  Qed.
+
+  Theorem step_atomic enf d o e : Inv d -> TInv d -> wf_op o ->
+    fst (step enf d o) = Err e -> snd (step enf d o) = d.
+  Proof.
+    intros I T W. rewrite (step_refines enf d o I T W).
+    pose proof (spec_step_ok enf d o I T) as G. apply G.
+  Qed.
+
+  Theorem step_preserves enf d o : Inv d -> TInv d -> wf_op o ->
+    Inv (snd (step enf d o)) /\ TInv (snd (step enf d o)) /\ out_ok (fst (step enf d o)).
+  Proof.
+    intros I T W. rewrite (step_refines enf d o I T W).
+    pose proof (spec_step_ok enf d o I T) as G. unfold step_ok in G. tauto.
+  Qed.
+
+  (* the constructor establishes the invariants *)
+  Theorem constructed_ok enf xs d : from_iterable enf xs = Ok d -> Inv d /\ TInv d.
+  Proof. rewrite from_iterable_fresh. intro H. apply fresh_ok in H. tauto. Qed.
+
+  (* enforce_item_equivalence=True: adding an unequal item under an existing
+     key raises ValueError (TypeError if it is ill typed) and changes nothing *)
+  Theorem enforce_add_unequal d x y : Inv d ->
+    lookup (key x) d = Some y -> y <> x ->
+    step true d (OAdd x) = (Err (if valid x then ValueErr else TypeErr), d).
+  Proof.
+    intros I L N. simpl. unfold add, add_untyped, clashes. rewrite L.
+    destruct (valid x); auto. simpl.
+    assert (ieqb y x = false) as -> by (now apply ieqb_neq). reflexivity.
+  Qed.
+
+  (* and in every other case a well-typed item is stored under its key *)
+  Theorem add_succeeds enf d x : valid x = true ->
+    (enf = false \/ forall y, lookup (key x) d = Some y -> y = x) ->
+    step enf d (OAdd x) = (Ok RNone, put (key x) x d).
+  Proof.
+    intros V H. simpl. unfold add, add_untyped, clashes. rewrite V.
+    destruct H as [->|H]; auto. destruct (lookup (key x) d) as [y|] eqn:L.
+    - rewrite (H y eq_refl), ieqb_refl. now rewrite andb_false_r.
+    - now rewrite andb_false_r.
+  Qed.
+
+  (* typed containers: an ill-typed item (or an item with an ill-typed key) is rejected *)
+  Theorem typed_add_rejects enf d x : valid x = false ->
+    step enf d (OAdd x) = (Err TypeErr, d).
+  Proof. intro V. simpl. unfold add. now rewrite V. Qed.
+
 End Proofs.
